@@ -20,6 +20,11 @@ CHECKS = {
    technique="explicit-state BFS over the real csproto.Decoder: every operation in every reachable decoder state, per buffer of an exhaustive bounded family; reference-model comparison per transition",
    text="For every byte string of length <= 4 (thorough 5) over a 16-symbol wire alphabet (x4 paddings), BFS from NewDecoder over states keyed by all Decoder struct fields; all ~120 operations applied in every reachable state, so call sequences of every length are covered per buffer. Oracle per transition: no panic, cursor in [0,len], err==nil => reference item exists with equal value and advance == item length, over-long declared length => error, nested callee not invoked for over-long length. Declared-length allocation family runs in an address-space-limited subprocess with a per-call TotalAlloc budget; worker death is attributed to the executing case.",
    note="Inputs longer than the bound / bytes outside the alphabet not covered. State key = raw bytes of the Decoder struct. Every explored transition is an execution of the real code (traces_validated_against_impl == transitions)."),
+
+ "C13": dict(level="exploration", design="DESIGN.md §7 C13",
+   technique="exhaustive product enumeration (message family x definition family x accessors x modes x entry points) against a spec-derived reference walk",
+   text="(all ~15k messages x 74 core definitions) U (75 core messages x all 6561 definitions) [quick: deterministic 1/16 and 1/12 slices; thorough: all], each decoded through Decoder.Decode (safe, fast) and the deprecated Decode(); every one of 26 typed accessors via DecodeResult and FieldData, GetFieldData, FieldData(path), NestedResult(s) (recursively, depth 3) and Range compared with the reference: last occurrence / all occurrences with packed runs expanded / sub-message values / raw bytes / typed errors. All byte strings <= 4 (5) over a 16-symbol alphabet x 12 definitions for totality (full oracle when well-formed).",
+   note="Property's own precondition: one wire type per requested field number. Where the statement is silent the reference's own expansion decides (parse ok => values equal; else any error). Workers are subprocesses with an address-space limit."),
 }
 
 NOT_YET = {}
